@@ -1,10 +1,10 @@
 """What MANIFEST.json says about each claimed property."""
 
-HOOK_COMMITS = ["34ba92b"]
+HOOK_COMMITS = ["34ba92b", "6392308"]
 
 ENGINES = [
     dict(name="tlc", path="/usr/local/bin/tlc", kind_free_text="TLC 1.8.0 explicit-state model checker: exhaustive checking of the specifications in /verif/spec, simulation-mode behaviour generation, trace validation",
-         serves_properties=["C01", "C02", "C05", "C06", "C07", "C08", "C09", "C10", "C11", "C12", "C18"]),
+         serves_properties=["C01", "C02", "C03", "C04", "C05", "C06", "C07", "C08", "C09", "C10", "C11", "C12", "C14", "C17", "C18"]),
     dict(name="nvh", path="/verif/harness", kind_free_text="Rust conformance harness (path dependency on /repo, built with --cfg nomt_verif): replays TLC behaviours against the real store and records observation traces",
          serves_properties=["C01", "C02", "C09", "C10", "C11", "C12"]),
 ]
@@ -81,6 +81,48 @@ CHECKS.update({
                  "DESIGN.md 4/C18"),
 })
 
+_SYNC_NOTE = ("Trusted: TLC; the hook sites cover every mutating file operation (H-io); the shadow disk (harness/src/shadow.rs) "
+              "rebuilds both views of every file from the recorded events; the kernel/device honour fsync; torn 4 KiB pages and "
+              "lost unlinks are outside the fault model.  The design-level model is exhaustive for its small constants (all crash "
+              "points, all loss subsets, nested crashes); the real store is exercised on every event boundary of the recorded "
+              "operations of TLC-generated histories, with sampled loss subsets.")
+
+def _sync(level, text, ref, tech):
+    return dict(level=level, engine="tlc", design_ref=ref, note=_SYNC_NOTE, text=text, technique=tech)
+
+CHECKS.update({
+    "C03": _sync("fault_enumeration", "NomtSync!OldOrNew is model-checked with process crashes at every step incl. crashes of "
+                 "the recovery itself; for every commit / overlay commit / rollback / reopen of TLC-generated histories the I/O events "
+                 "are recorded, the directory image of EVERY event boundary (in-flight operations applied or not, singly toggled) is "
+                 "materialised, reopened with the real store - whose recovery is recorded and interrupted again - and the observation "
+                 "(values, root vs reference, proofs, seqn, one further commit) must be NomtApi's state before or after the call, "
+                 "the latter once the call has returned (ApiTrace!TrImage).", "DESIGN.md 4/C03",
+                 "TLA+ NomtSync model-checked with TLC (all crash points, nested); crash-point enumeration of recorded I/O traces of "
+                 "the real store with reopened images validated by TLC against NomtApi (ApiTrace)"),
+    "C04": _sync("model_checking", "NomtSync!OldOrNew / DurableOldOrNew / NoTornLog hold for every power-loss choice (any subset of "
+                 "unsynced page writes, lost resizes/appends/directory entries, torn log) at every step incl. during recovery, and "
+                 "each ordering guard is shown load-bearing by a mutant configuration; recorded event streams of the real store are "
+                 "validated by TLC against the same guards (SyncTrace: wal/ln/bbn/segments clean and directory synced before the meta "
+                 "write, hash table clean before the WAL is truncated, meta durable and hash table clean in recovery); power-loss "
+                 "images (also after a crashed process was recovered) are reopened and judged like C03's.", "DESIGN.md 4/C04",
+                 "TLA+ NomtSync model-checked with TLC incl. guard mutants; recorded I/O event streams validated by TLC (SyncTrace); "
+                 "synthesised power-loss images reopened and validated by TLC against NomtApi"),
+    "C14": _sync("fault_enumeration", "NomtSync!IoFail / FailureIsReported and NomtApi!CommitFails / PoisonedIsFrozen are model-checked; "
+                 "for sampled (operation, k) pairs the k-th mutating I/O operation of a commit / rollback of the real store is failed "
+                 "(EIO / ENOSPC, once or persistently): the call must return an error, the handle must report itself poisoned and "
+                 "refuse the next commit, and the reopened directory must be NomtApi's old or new state (ApiTrace!TrFault).",
+                 "DESIGN.md 4/C14",
+                 "TLA+ NomtSync/NomtApi model-checked with TLC; I/O fault injection into the real store at every recorded operation "
+                 "index with outcomes validated by TLC (ApiTrace)"),
+    "C17": _sync("model_checking", "NomtSync!NoOverwriteOfOld is model-checked (and violated by the mutants that drop the cow / "
+                 "ht-after-meta / prune-after-meta guards); every page write, resize and unlink recorded from the real store across "
+                 "store configurations is validated by TLC (SyncTrace) against the pre-image decoded from meta and the free lists: "
+                 "before the meta page is durable ln/bbn writes only hit free or beyond-bump pages, the hash table is untouched, no "
+                 "rollback segment is unlinked.", "DESIGN.md 4/C17",
+                 "TLA+ NomtSync model-checked with TLC incl. guard mutants; recorded I/O event streams of the real store validated "
+                 "by TLC against the decoded pre-image (SyncTrace)"),
+})
+
 _PENDING = "check under construction in this round; not claimed yet"
 NOT_APPLICABLE = {p: _PENDING for p in
-                  ["C03", "C04", "C13", "C14", "C15", "C16", "C17", "C19", "C20"]}
+                  ["C13", "C15", "C16", "C19", "C20"]}
